@@ -34,6 +34,10 @@ func rawBody(o *opReq, queryTail, varsName, opName string) string {
 
 const echoStringQ = `"query":"query Q($s: String) { echoString(x: $s) }"`
 
+// deepLimit: the nesting-limit texts are expensive for the extracted model (two 20 kB texts per
+// submission, parsed several times): full size only in the thorough tier
+var deepLimit = false
+
 func rawTexts(o *opReq) []rawText {
 	deep := strings.Repeat("[", 40) + "1" + strings.Repeat("]", 40)
 	gt := bodyObj(o, true).text(styleCompact)
@@ -91,10 +95,13 @@ func rawTexts(o *opReq) []rawText {
 		{"lone-quote", `"`},
 		{"nul-after", gt + "\x00"},
 		{"comment", gt + " // c"},
+		// ---- the nesting limit of the library: 10000 open arrays / objects (the body object is one) ----
+		{"nest-at-limit", "{" + echoStringQ + `,"unread":` + strings.Repeat("[", nestN(9999)) + strings.Repeat("]", nestN(9999)) + "}"},
+		{"nest-over-limit", "{" + echoStringQ + `,"unread":` + strings.Repeat("[", nestN(10000)) + strings.Repeat("]", nestN(10000)) + "}"},
 	}
 }
 
-const nRawKinds = 51
+const nRawKinds = 53
 
 // one raw text as a POST application/json body or as a start / subscribe payload
 func rawSub(o *opReq, kind int, r *rng.R, id func() string) *submission {
@@ -127,9 +134,9 @@ func rawSubOn(o *opReq, kind int, choice int, id func() string) *submission {
 		i := id()
 		text := rt.Text
 		raw := frameText("itp", startType(proto), i, &text)
-		if !valid {
-			// the payload is part of the frame: the frame is not a deserialisable message
-			// (judged by json.Valid: the frame level is not parsed by the model)
+		if !json.Valid([]byte(raw)) {
+			// the payload is part of the frame: the frame is not a deserialisable message (the
+			// harness's opinion; the model splits the frame text itself)
 			return &submission{Transport: proto, Role: role, Label: "raw-" + rt.Label, WS: &wsEnv{Proto: proto, Bad: true, ID: i, Raw: raw}}
 		}
 		return &submission{Transport: proto, Role: role, Label: "raw-" + rt.Label, WS: &wsEnv{Proto: proto, Type: startType(proto), ID: i, Payload: &text, Raw: raw}}
@@ -162,4 +169,11 @@ func rawGetSub(kind int, name string) *submission {
 	}
 	ps := [][2]string{{"query", "query Q($s: String) { echoString(x: $s) }"}, {name, rt.Text}}
 	return &submission{Transport: "get", Role: role, Label: "raw-" + name + "-" + rt.Label, HTTP: &httpEnv{Method: "GET", Params: ps}}
+}
+
+func nestN(n int) int {
+	if deepLimit {
+		return n
+	}
+	return n / 50
 }
